@@ -2,7 +2,7 @@
    This file contains only the property theorems, each closed by [exact] of a lemma
    proved elsewhere, with its assumptions printed. *)
 From Coq Require Import ZArith Lia.
-From Clemens Require Import Search.Time Search.TimeProofs.
+From Clemens Require Import Search.Time Search.TimeProofs Search.TimeMore.
 From ClemensGen Require Import GoConsts.
 Open Scope Z_scope.
 
@@ -28,6 +28,53 @@ Theorem C08_budget_indep : forall (black : bool) plys sp sp',
   calc_time maxTimeInMs black plys sp = calc_time maxTimeInMs black plys sp'.
 Proof. exact (budget_indep maxTimeInMs). Qed.
 Print Assumptions C08_budget_indep.
+
+(* The bounds for EVERY int64 input (no 2^40 range premise): whatever wraps happen on the way, the margin the code
+   intends is kept - at least 50 ms and at least a tenth below the mover's clock. *)
+Lemma max_ms_nonneg : 0 <= maxTimeInMs.
+Proof. vm_compute. discriminate. Qed.
+
+Theorem C08_budget_margin_any_i64 : forall (black : bool) plys sp,
+  all_i64 plys sp ->
+  let t := if black then gp_btime sp else gp_wtime sp in
+  0 < t -> calc_time maxTimeInMs black plys sp <= t - Z.max (Z.quot t 10) 50.
+Proof. intros black plys sp. exact (budget_margin_any_i64 _ black plys sp max_ms_nonneg). Qed.
+Print Assumptions C08_budget_margin_any_i64.
+
+Theorem C08_budget_lt_clock_any_i64 : forall (black : bool) plys sp,
+  all_i64 plys sp ->
+  let t := if black then gp_btime sp else gp_wtime sp in
+  0 < t -> calc_time maxTimeInMs black plys sp < t.
+Proof. intros black plys sp. exact (budget_lt_clock_any_i64 _ black plys sp max_ms_nonneg). Qed.
+Print Assumptions C08_budget_lt_clock_any_i64.
+
+Theorem C08_budget_lt_movetime_any_i64 : forall (black : bool) plys sp,
+  all_i64 plys sp ->
+  0 < gp_movetime sp -> calc_time maxTimeInMs black plys sp <= gp_movetime sp - 50.
+Proof. exact (budget_lt_movetime_any_i64 maxTimeInMs). Qed.
+Print Assumptions C08_budget_lt_movetime_any_i64.
+
+(* Without a movetime the budget stays below the configured maximum; with nothing known it is 900 ms. *)
+Theorem C08_budget_lt_max : forall (black : bool) plys sp,
+  in_range plys sp -> gp_movetime sp = 0 ->
+  let t := if black then gp_btime sp else gp_wtime sp in
+  0 < t -> calc_time maxTimeInMs black plys sp <= maxTimeInMs - 50.
+Proof. intros black plys sp. exact (budget_lt_max _ black plys sp max_ms_ok). Qed.
+Print Assumptions C08_budget_lt_max.
+
+Theorem C08_budget_unknown : forall (black : bool) plys sp,
+  (if black then gp_btime sp else gp_wtime sp) <= 0 -> gp_movetime sp <= 0 ->
+  calc_time maxTimeInMs black plys sp = 900.
+Proof. exact (budget_unknown maxTimeInMs). Qed.
+Print Assumptions C08_budget_unknown.
+
+(* Non-vacuity of the int64 statement: a clock of 2^61 ms with an increment whose product with the
+   remaining moves wraps. *)
+Example C08_any_i64_hyps_met :
+  let sp := {| gp_wtime := 2305843009213693952; gp_btime := 1; gp_winc := 2305843009213693951; gp_binc := 0;
+               gp_movestogo := 0; gp_movetime := 0 |} in
+  all_i64 0 sp /\ calc_time maxTimeInMs false 0 sp < gp_wtime sp.
+Proof. unfold all_i64, is_i64. cbn -[calc_time]. repeat split; try (vm_compute; congruence); vm_compute; reflexivity. Qed.
 
 (* The statement was false of the formula as it stood before the fix: commit (D4). *)
 Theorem C08_unrepaired_refuted :
